@@ -791,6 +791,7 @@ W:
 		cmd.done()
 		return cmd
 	}
+	cmd.conn = usedConn
 
 	s.peer.pluginContainer.postWriteCall(cmd)
 	return cmd
@@ -840,6 +841,7 @@ func (s *session) readDisconnected(oldConn net.Conn, err error) {
 	// that a writer started (the writer met the loss first): the session lives
 	// on with a new reader; its calls, its socket and its status are not ours.
 	if oldConn != nil && oldConn != s.getConn() {
+		s.cancelCallsOf(oldConn, disconnectReason(err))
 		return
 	}
 	var status int32
@@ -861,25 +863,14 @@ func (s *session) readDisconnected(oldConn net.Conn, err error) {
 
 	s.peer.sessHub.deleteSession(s.ID(), s)
 
-	var reason string
-	if err != nil && err != socket.ErrProactivelyCloseSocket {
-		if errStr := err.Error(); errStr != "EOF" {
-			reason = errStr
-			Debugf("disconnect(%s) when reading: %T %s", s.RemoteAddr().String(), err, errStr)
-		}
+	reason := disconnectReason(err)
+	if reason != "" {
+		Debugf("disconnect(%s) when reading: %T %s", s.RemoteAddr().String(), err, reason)
 	}
 	// cancel the callCmd that is waiting for a reply; this comes before waiting
 	// for the running handlers, because a handler may itself be waiting for a
 	// call it issued over this session
-	s.callCmdMap.Range(func(_, v interface{}) bool {
-		callCmd := v.(*callCmd)
-		callCmd.mu.Lock()
-		if !callCmd.hasReply() && callCmd.stat.OK() {
-			callCmd.cancel(reason)
-		}
-		callCmd.mu.Unlock()
-		return true
-	})
+	s.cancelCallsOf(oldConn, reason)
 
 	s.graceCtxWait()
 
@@ -893,6 +884,34 @@ func (s *session) readDisconnected(oldConn net.Conn, err error) {
 		s.notifyClosed()
 		s.peer.pluginContainer.postDisconnect(s)
 	}
+}
+
+func disconnectReason(err error) string {
+	if err != nil && err != socket.ErrProactivelyCloseSocket {
+		if errStr := err.Error(); errStr != "EOF" {
+			return errStr
+		}
+	}
+	return ""
+}
+
+// cancelCallsOf cancels the calls that wait for a reply on the lost
+// connection. A call that a writer has meanwhile sent again over a newer
+// connection (the writer re-established the session) waits there and is left alone.
+func (s *session) cancelCallsOf(lostConn net.Conn, reason string) {
+	s.callCmdMap.Range(func(_, v interface{}) bool {
+		callCmd := v.(*callCmd)
+		callCmd.mu.Lock()
+		if callCmd.conn != nil && lostConn != nil && callCmd.conn != lostConn {
+			callCmd.mu.Unlock()
+			return true
+		}
+		if !callCmd.hasReply() && callCmd.stat.OK() {
+			callCmd.cancel(reason)
+		}
+		callCmd.mu.Unlock()
+		return true
+	})
 }
 
 // closeLostConn closes the socket after its connection was lost, unless a
